@@ -232,6 +232,8 @@ Proof.
   apply andb_true_iff in Hl. destruct Hl as [Hl _].
   apply andb_true_iff in Hl. destruct Hl as [Hl _].
   apply andb_true_iff in Hl. destruct Hl as [Hl _].
+  apply andb_true_iff in Hl. destruct Hl as [Hl _].
+  apply andb_true_iff in Hl. destruct Hl as [Hl _].
   apply andb_true_iff in Hl. destruct Hl as [Hl Hsheets].
   apply andb_true_iff in Hl. destruct Hl as [Hl J3].
   apply andb_true_iff in Hl. destruct Hl as [Hl J2].
@@ -307,11 +309,11 @@ Proof.
 Qed.
 
 (* non-vacuity *)
-Definition ex_xls_wb : workbook xref :=
+Definition ex_xls_wb : workbook Ptg.expr :=
   mkWb [mkMeta [97; 233] Hidden MacroSheet; mkMeta [128512; 20013] VeryHidden WorkSheet;
         mkMeta [98] Visible Vba] [] true.
 Definition ex_xls_c : xls_choice :=
-  mkLc [mkLs 0 false 3; mkLs 10 true 0; mkLs 4 true 1] [] [] [(225, [176; 4])]
+  mkLc [mkLs 0 false 3; mkLs 10 true 0; mkLs 4 true 1] [] [] [] [(225, [176; 4])]
        [(224, [0; 0; 14; 0]); (1054, [164; 0; 1; 0; 0; 100])] [] [(255, [])] false [9; 8].
 Lemma xls_nonvacuous :
   xls_legal ex_xls_c ex_xls_wb = true /\
